@@ -237,6 +237,13 @@ class Constant(DataclassHideDefault):
             return False
         return constant_key(self.constant) == constant_key(__o.constant)
 
+    def __hash__(self) -> int:
+        from ._constants import constant_key
+
+        # Hash what __eq__ compares, so that equal constants (like two different NaN
+        # objects) have equal hashes
+        return hash((constant_key(self.constant), self._index_override))
+
 
 @dataclass(frozen=True)
 class Freevar(DataclassHideDefault):
